@@ -8,4 +8,5 @@ CONSTANTS
   Classes = {"intact", "decoy_all", "decoy_some", "decoy_head", "longer"}
 INVARIANT Safe
 INVARIANT CompleteRun
+INVARIANT ClosureAgrees
 CHECK_DEADLOCK FALSE
